@@ -345,6 +345,8 @@ def run_check(pid, tier="quick", runs=None, workers=None, verif_seed=None, write
             try:
                 for fut in as_completed(futs, timeout=wall_cap + 1200):
                     c = futs[fut]
+                    if fut.cancelled():
+                        continue
                     try:
                         r = fut.result()
                     except BaseException as err:
